@@ -25,6 +25,10 @@ CORPUS = [
     "main:\n    li a0, 7\n    li a7, 5\n    ecall\n    addi a7, a0, 3\n    ecall\n    li a7, 10\n    ecall\n",
     "main:\n    addi sp, sp, -4\n    lw t0, 0(a0)\n    sw t0, 0(sp)\n    li t0, 10\n    addi t1, t0, 0\n    lw a7, 0(sp)\n    ecall\n    li a7, 10\n    ecall\n",
     "main:\n    li t0, 10\n    sub t3, t0, sp\n    div t4, zero, zero\n    mv a0, t3\n    li a7, 93\n    ecall\n",
+    # a function entry that carries several labels (aliases): both called / one called / three
+    "main:\n    li a0, 1\n    jal fn_a\n    jal fn_alias\n    addi a7, zero, 10\n    ecall\nfn_a:\nfn_alias:\n    addi a0, a0, 1\n    ret\n",
+    "main:\n    li a0, 1\n    jal fn_alias\n    li a7, 10\n    ecall\nfn_a:\nfn_alias:\n    addi a0, a0, 1\n    ret\n",
+    "main:\n    li a0, 1\n    jal g1\n    jal g3\n    mv a1, a0\n    jal h\n    li a7, 10\n    ecall\ng1:\ng2:\n\ng3:\n    addi a0, a0, 1\n    beqz a0, g_out\n    addi a0, a0, 2\ng_out:\n    ret\nh:\nh_alias: addi a0, a1, 1\n    ret\n",
     # computations into the zero register, then uses of x0
     "main:\n    li t0, 5\n    li t1, 6\n    add x0, t0, t1\n    addi a0, x0, 1\n    li a7, 1\n    ecall\n    li a7, 10\n    ecall\n",
     "main:\n    addi sp, sp, -8\n    li t0, 9\n    sw t0, 4(sp)\n    lw zero, 4(sp)\n    add a0, zero, zero\n    addi a0, zero, 2\n    addi sp, sp, 8\n    li a7, 93\n    ecall\n",
@@ -109,10 +113,41 @@ def ecall_matrix():
     return out
 
 
+def backward_layout(rng):
+    """Callees defined above their callers, call sites reached only by jumps from further down,
+    an argument whose liveness has to travel through a chain of wrappers: facts that need many
+    sweeps against the order in which the passes visit the nodes."""
+    n = rng.randrange(1, 6)
+    arg = rng.choice(["a2", "a3", "a4", "a5", "a0", "a1"])
+    frames = rng.random() < 0.4
+    L = [".data", "cell: .word 0", ".text", "main:", "    j setup", "leaf:"]
+    L += rng.choice([["    la t0, cell", f"    sw {arg}, 0(t0)"], [f"    addi t1, {arg}, 1", "    mv a0, t1"]])
+    L += ["    ret"]
+    prev = "leaf"
+    for i in range(1, n + 1):
+        L += [f"wrap{i}:"]
+        if frames:
+            L += ["    addi sp, sp, -4", "    sw ra, 0(sp)"]
+        L += [f"    jal {prev}"]
+        if frames:
+            L += ["    lw ra, 0(sp)", "    addi sp, sp, 4"]
+        L += ["    ret"]
+        prev = f"wrap{i}"
+    L += ["docall:", f"    jal {prev}"]
+    if rng.random() < 0.5:
+        L += ["    mv t2, a0", "    mv a0, t2"]
+    L += ["    li a7, 10", "    ecall", "setup:", f"    li {arg}, {rng.choice([41, 7, 0])}"]
+    if rng.random() < 0.5:
+        L += ["    li t3, 5", f"    add {arg}, {arg}, t3"]
+    L += ["    j docall"]
+    return "\n".join(L) + "\n"
+
+
 def gen_programs(rng, n, sloppy_choices=(0, 0.1, 0.3), multi=0.15):
     out = list(CORPUS) + branch_matrix() + ecall_matrix()
     for _ in range(max(4, n // 10)):
         out.append(handler_program(rng))
+        out.append(backward_layout(rng))
     for _ in range(n):
         s, _ = prog.program(rng, sloppy=rng.choice(sloppy_choices), multi_ret=rng.random() < multi)
         out.append(s)
